@@ -83,6 +83,8 @@ class Interp:
         self.bufs = {}
         self.foreach_stack = []
         self.last = None
+        self.pending_vars = set()     # outputs assigned by plain (non-strict) actions since the last consumed byte
+        self.tainted = set()          # outputs whose value is uncertain: such an action was pending when an error struck (T3)
         for o in prog.outs:
             k = o[0]
             if k == "int":
@@ -126,14 +128,24 @@ class Interp:
             pre(sym)
         self.pos += 1
         self.last = sym
+        self.pending_vars = set()
 
     # ------------------------------------------------------------------ helpers
     def snapshot(self):
         out = []
         for k in sorted(self.vars):
             v = self.vars[k]
-            out.append((k, (len(v), bytes(v)) if isinstance(v, bytearray) else v))
+            if k in self.tainted:
+                out.append((k, "?"))
+            else:
+                out.append((k, (len(v), bytes(v)) if isinstance(v, bytearray) else v))
         return tuple(out)
+
+    def plain_write(self, var, selfref=False):
+        if selfref and var in self.tainted:
+            return          # stays uncertain
+        self.tainted.discard(var)
+        self.pending_vars.add(var)
 
     def ev(self, kind, *payload):
         self.out.events.append((self.pos, kind, tuple(payload)))
@@ -210,11 +222,14 @@ class Interp:
             else:
                 v = evalir.ev(s[2], self.env(last))
                 self.vars[s[1]] = carith.convert(t, v[1])
-            self.ev("set", s[1], self.vars[s[1]])
+            self.plain_write(s[1], selfref=(s[2][0] != "enum" and _reads_var(s[2], s[1])))
+            self.ev("set", s[1], self.vars[s[1]] if s[1] not in self.tainted else "?")
         elif k == "assignstr":
+            self.plain_write(s[1])
             self.vars[s[1]] = bytearray(s[2])
             self.ev("delete" if not s[2] else "setstr", *((s[1],) if not s[2] else (s[1], bytes(s[2]))))
         elif k == "delete":
+            self.plain_write(s[1])
             self.vars[s[1]] = bytearray()
             self.ev("delete", s[1])
         elif k == "hook":
@@ -252,6 +267,8 @@ class Interp:
             except (NoMatch, OutOfSpace) as e:
                 if e.reason not in reasons:
                     raise
+                # plain actions of this gap may or may not have been performed by an implementation when the error struck
+                self.tainted |= self.pending_vars
                 self.exec_body(s[3])
         elif k == "foreach":
             self.foreach_stack.append(s[2])
@@ -348,6 +365,18 @@ class Interp:
             out.terminal = ("fail", self.pos)
         out.final = dict(self.snapshot())
         return out
+
+
+def _reads_var(e, name):
+    if e[0] in ("var", "len") and e[1] == name:
+        return True
+    if e[0] == "idx":
+        return e[1] == name or _reads_var(e[2], name)
+    if e[0] == "bin":
+        return _reads_var(e[2], name) or _reads_var(e[3], name)
+    if e[0] in ("not", "neg"):
+        return _reads_var(e[1], name)
+    return False
 
 
 def run(prog, word, call_end=False):
